@@ -25,7 +25,7 @@ from _griffe.enumerations import ParameterKind as PK
 from _griffe.expressions import ExprLambda, ExprName, ExprParameter, get_expression
 from _griffe.models import Alias, Class, Module
 from vlib import ob as OB
-from vlib.ob import HarnessDefect, Obligation, cover, fail, obligation, tiered
+from vlib.ob import HarnessDefect, Obligation, cover, fail, obligation, tiered, prop
 from vlib.pysymex import Codec, Engine, Interp, SRecord, SV, Unsupported
 from vlib.stubs import plain_error_messages, silence_logging
 
@@ -328,7 +328,7 @@ def _sa_pre(pos, ann_mod, ann_as, lit_mod, lit_as, ps):
     pid="C03", name="string_annotations", timeout=tiered(200, 900), path_timeout=60.0,
     shards=lambda: [(f"pos={p}", None, [dict(pos=p, ann_mod=a, lit_mod=l) for a in ANN_MODS for l in LIT_MODS]) for p in POSITIONS],
     pre=_sa_pre,
-    drives=[get_expression, E._build_constant, E._build_subscript, E._build_tuple, Module.imports_future_annotations.fget],
+    drives=[get_expression, E._build_constant, E._build_subscript, E._build_tuple, prop(Module, "imports_future_annotations")],
     bounds={"position of the string constant": POSITIONS, "module the name `annotations` is imported from": ANN_MODS, "module the subscripted name is imported from": LIT_MODS, "explicit parse_strings": "None / True / False"},
     value_symbolic=["ps (int)", "ann_as / lit_as (bool: imported under another name)"],
     selectors=["position, module names (driver-bound; free symbolic module strings made every path time out: hashing in `canonical_path in {...}` realises them)"], stubs=STUBS + ["hand-built ast expression nodes"],
